@@ -165,6 +165,9 @@ def skeletons(nf):
        ('app', ['any', 'any', ('fixed', L(('sym', 0), ('sym', 1)))]), {})
     sk('eqneq', [(F('r', X, Y), conj(call('d1', X), eq(Z, F('f', X, Y)), call('d1', Y), neq(X, Y), eq(Z, F('f', _(1), _(2)))))],
        ('r', ['any', 'any']), d1)
+    sk('alias', [(F('r', X), conj(eq(X, Y), call('d1', Y))), (F('r', X), conj(call('same', X, Y), call('d1', Y), eq(X, C(1)))),
+                 (F('same', Z, Z), TRUE)],
+       ('r', ['any']), {('d1', 1): nf})
     sk('cutmid', [(F('r', X, Y), conj(call('d1', X), CUT, call('d1', Y))), (F('r', C(0), C(0)), TRUE)], ('r', ['any', 'any']), d1)
     sk('cutlast', [(F('r', X), conj(call('d1', X), CUT)), (F('r', C(0)), TRUE)], ('r', ['any']), d1)
     sk('ite', [(F('r', X, Y), ('ite', call('d1', X), call('d1', Y), conj(eq(X, C(0)), eq(Y, C(0)))))], ('r', ['any', 'any']), d1)
